@@ -11,3 +11,4 @@ import SimuVerif.Properties.C02
 import SimuVerif.Properties.C15
 import SimuVerif.Properties.C14
 import SimuVerif.Properties.C04
+import SimuVerif.Properties.C08
